@@ -6,7 +6,7 @@
 //
 // A case (scenario) in the ops file:
 //
-//	new <kind> k=v ...          kind: clq | cpq cap=N | clist base=array|linked init=.. | cow init=.. | map
+//	new <kind> k=v ...          kind: clq | cpq cap=N | clist base=array|linked init=.. | cow init=.. | map [k=int|any v=int|any|err|ptr]
 //	pre <op>                    sequential prefix, executed by thread 0
 //	call <tid> <op>             the concurrent part: thread <tid> (1..8) issues its calls in order
 //	post <op>                   sequential suffix (observer, thread 0): drain / dump / asslice / range ...
@@ -199,51 +199,184 @@ func (o *listObj) do(w []string) string {
 	panic("list op " + w[0])
 }
 
-type mapObj struct {
-	m *syncx.Map[int, int]
+// syncx.Map is generic in its key and value types and moves every value through `any` (sync.Map) and a type
+// assertion back to V, so the instantiation is part of the input: `new map k=int|any v=int|any|err|ptr`
+// (default int/int).  With an interface-typed V (or K) the zero value is the nil interface, which sync.Map
+// hands back as an untyped nil; with a pointer-typed V it is a typed nil.  Value / key tokens:
+//
+//	<n>     the int n                         (k=int, v=int, and as one dynamic type of k=any / v=any)
+//	nil     the zero value of an interface or pointer type (nil interface / nil *int)
+//	pnil    a typed nil pointer (*int)(nil) held in an `any` (non-nil interface whose payload is nil)
+//	s<n>    the string "<n>" held in an `any`  (a second dynamic type: 5 and s5 are different values / keys)
+//	e<n>    the error verr(n)                  (v=err, and as a dynamic type of `any`)
+//	p<n>    the pointer &cells[n], 0<=n<64     (v=ptr)
+//
+// A value of a dynamic type the harness never stored is rendered `other` (no specification call answers it).
+type codec[T any] struct {
+	parse func(string) T
+	show  func(T) string
+}
+
+type verr int
+
+func (e verr) Error() string { return "verr" }
+
+var cells = func() (c [64]int) {
+	for i := range c {
+		c[i] = i
+	}
+	return
+}()
+
+var intCodec = codec[int]{parse: atoi, show: strconv.Itoa}
+
+var anyCodec = codec[any]{
+	parse: func(s string) any {
+		switch {
+		case s == "nil":
+			return nil
+		case s == "pnil":
+			return (*int)(nil)
+		case strings.HasPrefix(s, "s"):
+			return s[1:]
+		case strings.HasPrefix(s, "e"):
+			return verr(atoi(s[1:]))
+		}
+		return atoi(s)
+	},
+	show: func(v any) string {
+		switch x := v.(type) {
+		case nil:
+			return "nil"
+		case int:
+			return strconv.Itoa(x)
+		case string:
+			return "s" + x
+		case verr:
+			return "e" + strconv.Itoa(int(x))
+		case *int:
+			if x == nil {
+				return "pnil"
+			}
+		}
+		return "other"
+	},
+}
+
+var errCodec = codec[error]{
+	parse: func(s string) error {
+		if s == "nil" {
+			return nil
+		}
+		return verr(atoi(s[1:]))
+	},
+	show: func(v error) string {
+		if v == nil {
+			return "nil"
+		}
+		if x, ok := v.(verr); ok {
+			return "e" + strconv.Itoa(int(x))
+		}
+		return "other"
+	},
+}
+
+var ptrCodec = codec[*int]{
+	parse: func(s string) *int {
+		if s == "nil" {
+			return nil
+		}
+		return &cells[atoi(s[1:])&63]
+	},
+	show: func(v *int) string {
+		if v == nil {
+			return "nil"
+		}
+		for i := range cells {
+			if v == &cells[i] {
+				return "p" + strconv.Itoa(i)
+			}
+		}
+		return "other"
+	},
+}
+
+type mapObj[K comparable, V any] struct {
+	m *syncx.Map[K, V]
+	k codec[K]
+	v codec[V]
+}
+
+func newMapObj[K comparable, V any](k codec[K], v codec[V]) object {
+	return &mapObj[K, V]{&syncx.Map[K, V]{}, k, v}
+}
+
+func mkMap(p map[string]string) object {
+	switch p["k"] + "/" + p["v"] {
+	case "/", "int/int", "int/", "/int":
+		return newMapObj(intCodec, intCodec)
+	case "int/any", "/any":
+		return newMapObj(intCodec, anyCodec)
+	case "int/err", "/err":
+		return newMapObj(intCodec, errCodec)
+	case "int/ptr", "/ptr":
+		return newMapObj(intCodec, ptrCodec)
+	case "any/int", "any/":
+		return newMapObj(anyCodec, intCodec)
+	case "any/any":
+		return newMapObj(anyCodec, anyCodec)
+	case "any/err":
+		return newMapObj(anyCodec, errCodec)
+	case "any/ptr":
+		return newMapObj(anyCodec, ptrCodec)
+	}
+	panic("map instantiation k=" + p["k"] + " v=" + p["v"])
 }
 
 type fnErr struct{}
 
 func (fnErr) Error() string { return "fn failed" }
 
-func (o *mapObj) do(w []string) string {
+func (o *mapObj[K, V]) do(w []string) string {
 	m := o.m
+	key := func() K { return o.k.parse(w[1]) }
+	val := func() V { return o.v.parse(w[2]) }
 	switch w[0] {
 	case "load":
-		v, ok := m.Load(atoi(w[1]))
+		v, ok := m.Load(key())
 		if !ok {
 			return "absent"
 		}
-		return "v:" + strconv.Itoa(v)
+		return "v:" + o.v.show(v)
 	case "store":
-		m.Store(atoi(w[1]), atoi(w[2]))
+		m.Store(key(), val())
 		return "ok"
 	case "los":
-		v, loaded := m.LoadOrStore(atoi(w[1]), atoi(w[2]))
+		v, loaded := m.LoadOrStore(key(), val())
 		if loaded {
-			return "l:" + strconv.Itoa(v)
+			return "l:" + o.v.show(v)
 		}
-		return "s:" + strconv.Itoa(v)
+		return "s:" + o.v.show(v)
 	case "lad":
-		v, loaded := m.LoadAndDelete(atoi(w[1]))
+		v, loaded := m.LoadAndDelete(key())
 		if !loaded {
 			return "absent"
 		}
-		return "v:" + strconv.Itoa(v)
+		return "v:" + o.v.show(v)
 	case "del":
-		m.Delete(atoi(w[1]))
+		m.Delete(key())
 		return "ok"
 	case "losf", "losfe":
 		calls := 0
-		fn := func() (int, error) {
+		fn := func() (V, error) {
 			calls++
 			if w[0] == "losfe" {
-				return 0, fnErr{}
+				var zero V
+				return zero, fnErr{}
 			}
-			return atoi(w[2]), nil
+			return val(), nil
 		}
-		v, loaded, err := m.LoadOrStoreFunc(atoi(w[1]), fn)
+		v, loaded, err := m.LoadOrStoreFunc(key(), fn)
 		switch {
 		case err != nil:
 			if _, mine := err.(fnErr); !mine {
@@ -251,21 +384,32 @@ func (o *mapObj) do(w []string) string {
 			}
 			return fmt.Sprintf("err/%d", calls)
 		case loaded:
-			return fmt.Sprintf("l:%d/%d", v, calls)
+			return fmt.Sprintf("l:%s/%d", o.v.show(v), calls)
 		default:
-			return fmt.Sprintf("s:%d/%d", v, calls)
+			return fmt.Sprintf("s:%s/%d", o.v.show(v), calls)
 		}
 	case "range":
-		type kv struct{ k, v int }
+		// canonical order: int keys numerically (as before), any other key token after them, by text
+		type kv struct{ k, v string }
 		var ps []kv
-		m.Range(func(k, v int) bool { ps = append(ps, kv{k, v}); return true })
-		sort.Slice(ps, func(i, j int) bool { return ps[i].k < ps[j].k })
+		m.Range(func(k K, v V) bool { ps = append(ps, kv{o.k.show(k), o.v.show(v)}); return true })
+		sort.SliceStable(ps, func(i, j int) bool {
+			a, ea := strconv.Atoi(ps[i].k)
+			b, eb := strconv.Atoi(ps[j].k)
+			switch {
+			case ea == nil && eb == nil:
+				return a < b
+			case ea == nil || eb == nil:
+				return ea == nil
+			}
+			return ps[i].k < ps[j].k
+		})
 		if len(ps) == 0 {
 			return "m:-"
 		}
 		ss := make([]string, len(ps))
 		for i, p := range ps {
-			ss[i] = fmt.Sprintf("%d=%d", p.k, p.v)
+			ss[i] = p.k + "=" + p.v
 		}
 		return "m:" + strings.Join(ss, ",")
 	}
@@ -308,7 +452,7 @@ func mk(kind string, p map[string]string) object {
 	case "cow":
 		return &listObj{list.NewCopyOnWriteArrayListOf[int](vlib.ParseInts(p["init"]))}
 	case "map":
-		return &mapObj{&syncx.Map[int, int]{}}
+		return mkMap(p)
 	}
 	panic("kind " + kind)
 }
@@ -1832,25 +1976,122 @@ func (g *gen) clqRace() {
 	g.runRace()
 }
 
+// the instantiation of syncx.Map[K, V] is part of the scenario: the wrapper moves every key and value through
+// `any` and asserts it back, so what is "nothing" for sync.Map (an untyped nil) is an ordinary value / key of
+// an interface-typed V / K, and a typed nil of a pointer-typed V.  mapInst draws the instantiation and returns
+// the `new` line with generators for key and value tokens (see the codecs next to mapObj).  zeroHeavy makes the
+// zero value of V the most frequent value (a present key whose value is the zero value is still present).
+func (g *gen) mapInst(oneKey bool) (newLine string, keys []string, val func() string) {
+	kt := vlib.Pick(g.r, []string{"int", "int", "int", "any"})
+	vt := vlib.Pick(g.r, []string{"int", "int", "any", "any", "err", "ptr"})
+	newLine = "new map"
+	if kt != "int" || vt != "int" {
+		newLine = fmt.Sprintf("new map k=%s v=%s", kt, vt)
+	}
+	nk := g.r.Range(1, 3)
+	if oneKey {
+		nk = 1
+	}
+	if kt == "int" {
+		k0 := vlib.Pick(g.r, []int{1, 1, 0, -1}) // the key universe may contain the zero key and a negative one
+		if oneKey {
+			k0 = vlib.Pick(g.r, []int{1, 1, 1, 0, -1})
+		}
+		for i := 0; i < nk; i++ {
+			keys = append(keys, strconv.Itoa(k0+i))
+		}
+	} else {
+		// the nil interface is a legal key; 1, s1, e1 are three different keys; so are nil and pnil
+		pool := []string{"nil", "1", "s1", "0", "pnil", "e1"}
+		off := g.r.Intn(len(pool))
+		for i := 0; i < nk; i++ {
+			keys = append(keys, pool[(off+i)%len(pool)])
+		}
+	}
+	zeroHeavy := g.r.Chance(50)
+	zero := func() bool {
+		if zeroHeavy {
+			return g.r.Chance(45)
+		}
+		return g.r.Chance(12)
+	}
+	switch vt {
+	case "int":
+		val = func() string {
+			if g.r.Chance(6) {
+				return "0"
+			}
+			return strconv.Itoa(g.next())
+		}
+	case "any":
+		val = func() string {
+			if zero() {
+				return "nil"
+			}
+			n := g.next()
+			switch g.r.Intn(8) {
+			case 0:
+				return "pnil"
+			case 1, 2:
+				return fmt.Sprintf("s%d", n)
+			case 3:
+				if n < 0 {
+					n = -n
+				}
+				return fmt.Sprintf("e%d", n)
+			}
+			return strconv.Itoa(n)
+		}
+	case "err":
+		val = func() string {
+			if zero() {
+				return "nil"
+			}
+			n := g.next()
+			if n < 0 {
+				n = -n
+			}
+			return fmt.Sprintf("e%d", n)
+		}
+	default:
+		val = func() string {
+			if zero() {
+				return "nil"
+			}
+			return fmt.Sprintf("p%d", g.next()&63)
+		}
+	}
+	return
+}
+
 // directed: everybody fights for one key
 func (g *gen) mpRace() {
 	g.reset()
-	g.out.Line("new map")
+	newLine, keys, v := g.mapInst(true)
+	g.out.Line("%s", newLine)
 	n := g.r.Range(2, 4)
-	k := vlib.Pick(g.r, []int{1, 1, 1, 0, -1})
+	k := keys[0]
+	if g.r.Chance(35) {
+		// the key is present from the start (with whatever the value generator draws, often the zero value of V)
+		g.out.Line("pre store %s %s", k, v())
+	}
 	for t := 1; t <= n; t++ {
 		for c := g.r.Range(2, 5); c > 0; c-- {
 			switch x := g.r.Intn(100); {
-			case x < 45:
-				g.out.Line("call %d losf %d %d", t, k, g.next())
-			case x < 60:
-				g.out.Line("call %d losfe %d", t, k)
-			case x < 80:
-				g.out.Line("call %d lad %d", t, k)
+			case x < 40:
+				g.out.Line("call %d losf %s %s", t, k, v())
+			case x < 53:
+				g.out.Line("call %d losfe %s", t, k)
+			case x < 70:
+				g.out.Line("call %d lad %s", t, k)
+			case x < 78:
+				g.out.Line("call %d del %s", t, k)
+			case x < 84:
+				g.out.Line("call %d load %s", t, k)
 			case x < 90:
-				g.out.Line("call %d del %d", t, k)
+				g.out.Line("call %d store %s %s", t, k, v())
 			default:
-				g.out.Line("call %d los %d %d", t, k, g.next())
+				g.out.Line("call %d los %s %s", t, k, v())
 			}
 		}
 	}
@@ -1860,18 +2101,11 @@ func (g *gen) mpRace() {
 
 func (g *gen) mp() {
 	g.reset()
-	g.out.Line("new map")
-	nk := g.r.Range(1, 3)
-	k0 := vlib.Pick(g.r, []int{1, 1, 0, -1}) // the key universe may contain the zero key and a negative one
-	key := func() int { return g.r.Range(k0, k0+nk-1) }
-	v := func() int {
-		if g.r.Chance(6) {
-			return 0
-		}
-		return g.next()
-	}
+	newLine, keys, v := g.mapInst(false)
+	g.out.Line("%s", newLine)
+	key := func() string { return vlib.Pick(g.r, keys) }
 	for i := g.r.Intn(3); i > 0; i-- {
-		g.out.Line("pre store %d %d", key(), v())
+		g.out.Line("pre store %s %s", key(), v())
 	}
 	n := g.nthreads()
 	cnt := g.split(n, g.budget(n))
@@ -1880,25 +2114,25 @@ func (g *gen) mp() {
 		for c := 0; c < cnt[t-1]; c++ {
 			switch x := g.r.Intn(100); {
 			case x < 14:
-				g.out.Line("call %d load %d", t, key())
+				g.out.Line("call %d load %s", t, key())
 			case x < 26:
-				g.out.Line("call %d store %d %d", t, key(), v())
+				g.out.Line("call %d store %s %s", t, key(), v())
 			case x < 38:
-				g.out.Line("call %d los %d %d", t, key(), v())
+				g.out.Line("call %d los %s %s", t, key(), v())
 			case x < 50:
-				g.out.Line("call %d lad %d", t, key())
+				g.out.Line("call %d lad %s", t, key())
 			case x < 60:
-				g.out.Line("call %d del %d", t, key())
+				g.out.Line("call %d del %s", t, key())
 			case x < 84:
-				g.out.Line("call %d losf %d %d", t, key(), v())
+				g.out.Line("call %d losf %s %s", t, key(), v())
 			case x < 96:
-				g.out.Line("call %d losfe %d", t, key())
+				g.out.Line("call %d losfe %s", t, key())
 			default:
 				if ranges == 0 {
 					ranges++
 					g.out.Line("call %d range", t)
 				} else {
-					g.out.Line("call %d load %d", t, key())
+					g.out.Line("call %d load %s", t, key())
 				}
 			}
 		}
@@ -1957,6 +2191,13 @@ func generate(tier string, out *vlib.Out) {
 		"new cow init=5,6,7\npre set 0 0\npre add 1 0\npre append 0\ncall 1 set 3 0\ncall 2 get 0\ncall 2 get 1\ncall 3 asslice\ncall 3 delete 0\npost asslice\npost len\nrun reps=%d seed=35",
 		"new map\npre store 0 0\ncall 1 load 0\ncall 2 los 0 7\ncall 3 losf 0 0\ncall 4 lad 0\ncall 4 losf 0 0\npost range\nrun reps=%d seed=31",
 		"new map\ncall 1 losf 0 0\ncall 2 losf 0 5\ncall 3 load 0\ncall 3 los -1 0\ncall 4 lad 0\ncall 4 load -1\npost range\nrun reps=%d seed=32",
+		// ... and so for every instantiation of the generic map: the zero value of an interface-typed V (or K) is the nil
+		// interface, of a pointer-typed V a nil pointer; a typed nil pointer inside an `any` is yet another value
+		"new map k=int v=any\npre store 1 nil\ncall 1 load 1\ncall 1 losf 1 5\ncall 2 store 1 nil\ncall 2 los 1 s7\ncall 3 lad 1\ncall 3 load 1\ncall 4 range\npost range\nrun reps=%d seed=36",
+		"new map k=int v=err\ncall 1 losf 0 nil\ncall 2 losf 0 e5\ncall 3 load 0\ncall 3 los 0 nil\ncall 4 lad 0\ncall 4 losfe 0\npost range\nrun reps=%d seed=37",
+		"new map k=int v=ptr\npre store 1 nil\ncall 1 load 1\ncall 2 store 1 p3\ncall 2 store 1 nil\ncall 3 losf 1 p4\ncall 3 lad 1\ncall 4 los 1 nil\npost range\nrun reps=%d seed=38",
+		"new map k=any v=any\npre store nil nil\npre store pnil pnil\ncall 1 load nil\ncall 1 lad pnil\ncall 2 losf nil 3\ncall 2 store s1 nil\ncall 3 los 1 s1\ncall 3 del nil\ncall 4 range\npost range\nrun reps=%d seed=39",
+		"new map k=any v=int\ncall 1 store nil 0\ncall 1 load nil\ncall 2 losf nil 4\ncall 2 lad nil\ncall 3 los e1 0\ncall 3 load 1\ncall 4 range\npost range\nrun reps=%d seed=40",
 	}
 	for _, c := range corpus {
 		for _, l := range strings.Split(c, "\n") {
